@@ -23,6 +23,13 @@ func (core *JApiCore) processInclude(keyword *scanner.Lexeme) *jerr.JApiError {
 		return japiErrorForLexeme(keyword, fmt.Sprintf("%s (%s)", jerr.DirectiveNotAllowed, directive.Include.String()))
 	}
 
+	// The directive written before the INCLUDE is complete: it is placed now, so
+	// that a fault in it is reported from the including file, not as if it had
+	// been found inside the included one.
+	if je := core.processCurrentDirective(); je != nil {
+		return je
+	}
+
 	path, je := core.getIncludedFilePath(keyword)
 	if je != nil {
 		return je
